@@ -10,6 +10,18 @@ ENG = {
 
 # id -> (engine, technique, level text, level note)
 P = {
+ "C04": ("E3", "bounded-exhaustive enumeration of all lengths 0..40 x operators x operand forms x special-value injections; bitwise scalar reference model",
+         "Every length 0..=40 (so every remainder of the 8-way unrolled kernels), every operator form of Vector and Matrix (owned/borrowed, scalar left/right, compound assignment, negation), all 29 unary maps, powi(-2..=5) and powf are executed on the real code with position-coded values and with every single-position injection of {+-0, +-inf, NaN, min subnormal, MAX}; each output element is compared bit for bit with the scalar f64 operation; all mismatched length pairs up to 17 and unequal Matrix shapes must panic; reductions are compared with double-double sums under the gamma_n bound, including large-magnitude log-domain inputs. A poisoning allocator turns an unwritten output element into a deterministic violation.",
+         "Lengths above 40 only at 63..65,127,128,1000,10000 (thorough). NaN payloads are not compared. 0x0 Matrix arithmetic and empty logsumexp are recorded, not judged. Same-build libm is the scalar reference."),
+ "C08": ("E3", "bounded-exhaustive enumeration of all small-integer data vectors x shifts x scales; exact integer reference model",
+         "All data vectors of length 1..=6 over {-2..2} under 5 shifts (up to 2^40, mean/sd up to 1e8+) and 3 scales, all pairs of vectors of length 2..=4 for the four covariance algorithms, structured vectors of every length 1..=40 (crossing the unrolled sum), all signed-zero/tie vectors of length <=6 for min/max/argmin/argmax, and all increasing edge sequences from a 7-point lattice are run through the free functions and the Vector/Matrix methods and compared with exact i128 integer arithmetic under the Welford/two-pass rounding bound fixed a priori.",
+         "Data are multiples of 1/4 (exact oracle); gaussian real-valued data and lengths above 96 are not enumerated. The tolerance is the a-priori bound 16 n u sqrt(var(var+mean^2))."),
+ "C12": ("E3", "bounded-exhaustive enumeration of all shape pairs x operators x operand kinds x ownership forms; NumPy-rule reference model, bitwise",
+         "All 1296 shape pairs with rows, cols in 1..=6 (10^4 pairs thorough, plus unroll-crossing sizes), four operators, Matrix-Matrix / Matrix-Vector / Vector-Matrix in four ownership forms each: the real operator is executed and compared bit for bit with the NumPy broadcasting rule computed by a 20-line model; an incompatible pair must panic, a compatible pair must not; every one of the nine structural stretch cases must have been entered or the run fails as vacuous.",
+         "Entries are distinct primes (left) and other primes + 0.5 (right), so each output entry identifies its two source entries. Larger shapes only on the listed sizes."),
+ "C16": ("E3", "bounded-exhaustive enumeration of all increasing knot sets from a lattice x ordinates x target lattice x modes x variants; exact piecewise-linear reference model",
+         "All 238 strictly increasing knot sets of 2..=6 abscissae from an 8-point lattice (spacing ratios up to 1e6), all ordinate assignments over 4 letters for <=4 knots, regular/geometric/thirds grids of every length 2..=200, targets at every knot, +-1 ulp around it, mid and quarter points and beyond both ends, in all three out-of-range modes, checked and unchecked: knot values must be bit-exact, interior values on the line (double-double reference) and between the ordinates, out-of-range targets must panic / return the correct fill value / continue the end segment. All permutations of 3- and 4-knot sets and all length mismatches must be rejected by the checked variant.",
+         "Tolerance 16u(|ya|+|yb|) max(1,|ratio|). A target equal to the first or last abscissa is treated as in range."),
  "C05": ("E3", "bounded-exhaustive enumeration of all shapes x transpose flags x block sizes x trait forms; exact integer reference model",
          "Every (m,l,n) up to the bound, all four transpose-flag combinations, every block size 1..2*max and every Dot impl (4 ownership forms x 4 methods, conformable and non-conformable shape pairs) is executed on the real code and compared for exact equality with an i64 triple-loop model; non-conformable pairs must panic. Exhaustive within the stated shape bound; integer entries make the oracle exact.",
          "Entries are small integers (exact f64 arithmetic); shapes beyond the bound and real-valued entries are not enumerated. Trusts the harness's 30-line triple loop."),
